@@ -264,10 +264,62 @@ func recursiveSearchFuncs(c *Ctx, m *searchModel) []*ssa.Function {
 			selfCalls = reachesSelfViaMethods(fn, fn, map[*ssa.Function]bool{})
 		}
 		if pushes && selfCalls {
-			res = append(res, fn)
+			res = append(res, cycleEntry(c, fn))
 		}
 	}
-	return res
+	// de-duplicate (two members of one cycle may name the same entry)
+	var out []*ssa.Function
+	seen := map[*ssa.Function]bool{}
+	for _, f := range res {
+		if !seen[f] {
+			seen[f] = true
+			out = append(out, f)
+		}
+	}
+	return out
+}
+
+// cycleEntry: when the pushing function is only ever called from a same-receiver method of its own recursion
+// cycle (the move loop split off into a method: search -> expand -> search), the search function is the member
+// of the cycle that is entered from outside; the pushing method is then one of its helpers.
+func cycleEntry(c *Ctx, fn *ssa.Function) *ssa.Function {
+	if fn.Signature.Recv() == nil {
+		return fn
+	}
+	callers := func(f *ssa.Function) (inside []*ssa.Function, outside int) {
+		for _, g := range c.P.AllFuncs {
+			if g == f || g.Blocks == nil {
+				continue
+			}
+			calls := false
+			for _, b := range g.Blocks {
+				for _, ins := range b.Instrs {
+					if call, ok := ins.(ssa.CallInstruction); ok && call.Common().StaticCallee() == f {
+						calls = true
+					}
+				}
+			}
+			if !calls {
+				continue
+			}
+			r1, r2 := g.Signature.Recv(), f.Signature.Recv()
+			if r1 != nil && r2 != nil && g.Pkg == f.Pkg && types.Identical(r1.Type(), r2.Type()) && reachesSelfViaMethods(g, g, map[*ssa.Function]bool{}) {
+				inside = append(inside, g)
+			} else {
+				outside++
+			}
+		}
+		return
+	}
+	cur := fn
+	for i := 0; i < 3; i++ {
+		inside, outside := callers(cur)
+		if outside > 0 || len(inside) != 1 {
+			return cur
+		}
+		cur = inside[0]
+	}
+	return fn
 }
 
 // rootFact reports whether the path established that the node is the root of the search: a true
